@@ -150,22 +150,22 @@ Theorem c13_quote_or_nil_nstring : forall s : str, clean s = true -> nstring_ok 
 Proof. exact nstring_quote_or_nil. Qed.
 Print Assumptions c13_quote_or_nil_nstring.
 
-(** disposition of a part: a parsed type gives ("TYPE" params) starting with
-    one quoted string *)
-Theorem c13_disposition_strict : forall (t : str) (ps : list (str * str)), t <> [] -> clean t = true ->
-  exists rest, disp_list (Some (t, ps)) = LP :: quote_or_nil (to_upper t) ++ rest
-               /\ quoted_strict (quote_or_nil (to_upper t)) = true.
+(** disposition of a part (unconditional since fix c1eb865): NIL, or a list
+    ("TYPE" params) that starts with ONE quoted string — whether or not Go's
+    mime package could parse the header (an unparsable one arrives with an empty
+    type and is NIL) *)
+Theorem c13_disposition_strict : forall disp : option (str * list (str * str)),
+  match disp with Some (t, _) => clean t = true | None => True end ->
+  disp_list disp = NIL
+  \/ exists t ps rest, disp = Some (t, ps) /\ disp_list disp = LP :: quote_or_nil (to_upper t) ++ rest
+                       /\ quoted_strict (quote_or_nil (to_upper t)) = true.
 Proof. exact disp_list_strict. Qed.
 Print Assumptions c13_disposition_strict.
 
-(** Confirmed (new): a Content-Disposition that mime.ParseMediaType rejects is
-    printed (NIL NIL), which does not start with a string. *)
-Theorem c13_refuted_disposition_nil :
-  classify_disp (Some ([], [])) = Some disposition_nil
-  /\ disp_list (Some ([], [])) = S_ "(NIL NIL)"
-  /\ quoted_strict (S_ "NIL") = false.
-Proof. exact refuted_disposition_nil. Qed.
-Print Assumptions c13_refuted_disposition_nil.
+(** regression: the old output (NIL NIL) starts with NIL, which is not a string *)
+Example c13_old_disposition_nil_malformed :
+  quoted_strict (S_ "NIL") = false /\ disp_list (Some ([], [])) = NIL.
+Proof. exact old_disposition_nil_malformed. Qed.
 
 (** Confirmed: QuoteOrNIL does not handle CR; "Subject: a<CR>b" reaches the
     ENVELOPE quoted string. *)
